@@ -144,6 +144,14 @@ Definition props_if_v5 (pk : packet) (buf : bytes) (offset : N) : res (packet * 
     let* (n, pk') := decode_props_at pk buf offset in Ok (pk', offset + n)
   else Ok (pk, offset).
 
+(* the same for the will properties of CONNECT (packets.go:403-409) *)
+Definition will_props_if_v5 (pk : packet) (buf : bytes) (offset : N) : res (packet * N) :=
+  if pk_version pk =? 5 then
+    let* s := slice_from buf offset in
+    let* (n, wp) := props_decode WILLPROPS (c_will_props (pk_connect pk)) s onerr EWillProperties in
+    Ok (upd_connect (set_c_will_props wp) pk, offset + n)
+  else Ok (pk, offset).
+
 (* ---------- ConnectDecode (packets.go:357-441) ---------- *)
 Definition connect_decode (pk : packet) (buf : bytes) : res packet :=
   let* (pn, offset) := decodeBytes buf 0 onerr EProtocolName in
@@ -163,12 +171,7 @@ Definition connect_decode (pk : packet) (buf : bytes) : res packet :=
   let pk := upd_connect (set_c_client_id cid) pk in
   let* (pk, offset) :=
     (if c_will_flag (pk_connect pk) then
-       let* (pk, offset) :=
-         (if pk_version pk =? 5 then
-            let* s := slice_from buf offset in
-            let* (n, wp) := props_decode WILLPROPS (c_will_props (pk_connect pk)) s onerr EWillProperties in
-            Ok (upd_connect (set_c_will_props wp) pk, offset + n)
-          else Ok (pk, offset)) in
+       let* (pk, offset) := will_props_if_v5 pk buf offset in
        let* (wt, offset) := decodeString buf offset onerr EWillTopic in
        let pk := upd_connect (set_c_will_topic wt) pk in
        let* (wp, offset) := decodeBytes buf offset onerr EWillPayload in
